@@ -125,7 +125,7 @@ def check_c04(pid, tier, seed, replay=None):
     t0 = time.time(); rng = random.Random(seed); q = tier == 'quick'
     bindir = vlib.build('asan')
     with ThreadPoolExecutor(max_workers=2) as ex:
-        f1 = ex.submit(block_mc, tier); f2 = ex.submit(gen_partitions, seed, 24 if q else 200)
+        f1 = ex.submit(block_mc, tier); f2 = ex.submit(gen_partitions, seed, 24 if q else 800)
         (mc, problems), hists = f1.result(), f2.result()
     extra_viol = []
     for kind, name, txt in problems:
@@ -133,7 +133,7 @@ def check_c04(pid, tier, seed, replay=None):
             os.makedirs(vlib.REPLAY, exist_ok=True); p = os.path.join(vlib.REPLAY, f'{pid}-design-{name}.txt'); open(p, 'w').write(txt)
             extra_viol.append(dict(replay=p, what=f'design-level invariant violated in {name} (transcription of block.c admits a bad state)'))
         else: vlib.log(f'[{pid}] {kind}: {name}: {txt[:300]}')
-    scns = fam_lengths(rng, 8 if q else len(CONFIGS), 7 if q else 40, full=not q) + fam_partitions(rng, hists) + fam_bigch(rng)
+    scns = fam_lengths(rng, 8 if q else len(CONFIGS), 7 if q else 120, full=not q) + fam_partitions(rng, hists) + fam_bigch(rng)
     res = run_batch(pid, scns, bindir, 'ench', *TRACE)
     if any(k == 'infra' for k, _, _ in problems): res['infra'].append('TLC failed on a design-level run')
     def nontrivial(s, evs):  # an end-to-end count was actually compared
@@ -188,7 +188,7 @@ def check_c05(pid, tier, seed, replay=None):
         if kind == 'design':
             os.makedirs(vlib.REPLAY, exist_ok=True); p = os.path.join(vlib.REPLAY, f'{pid}-design-{name}.txt'); open(p, 'w').write(txt)
             extra_viol.append(dict(replay=p, what=f'design-level invariant violated in {name}'))
-    scns = fam_signals(rng, 40 if q else 400, 12000 if q else 40000)
+    scns = fam_signals(rng, 40 if q else 1500, 12000 if q else 40000)
     res = run_batch(pid, scns, bindir, 'ench', *TRACE)
     def nontrivial(s, evs): return sum(1 for e in evs if e.get('e') == 'DecPkt') >= 3
     npk = sum(1 for s in scns for e in res['scn_events'].get(s.name, []) if e.get('e') == 'DecPkt')
